@@ -63,6 +63,12 @@ def cases(ctx):
         alts = ["pre", "direct", "pre-late"] if nseg <= 3 else ["pre", "direct"]
         for modes in itertools.product(alts, repeat=nseg):
             yield {"kind": "twin", "prog": prog, "values": values, "modes": list(modes), "hardware": hw, "script": script}
+        if nseg >= 2:
+            # the host queues each next round from the completion callback of the previous one: both routes
+            for base in ("pre", "direct"):
+                yield {"kind": "twin", "prog": prog, "values": values, "modes": [base + "+cb"] * nseg, "hardware": hw, "script": script}
+            yield {"kind": "twin", "prog": prog, "values": values, "modes": [rng.choice(["pre+cb", "direct+cb", "pre", "direct"]) for _ in range(nseg)],
+                   "hardware": hw, "script": script}
 
 
 def rounds_case(rng, hw="generic"):
@@ -89,7 +95,7 @@ def rounds_case(rng, hw="generic"):
         if r_ < nrounds - 1:
             prog.append({"op": "flush"})
         values.append({t: rng.choice([0, 1, 8, 16, 31, 255, rng.randrange(256)]) for t in ("t0", "t1", "angle")})
-    modes = [rng.choice(["pre", "pre", "direct", "pre-late"]) for _ in range(nrounds)]
+    modes = [rng.choice(["pre", "pre", "direct", "pre-late", "pre+cb", "direct+cb"]) for _ in range(nrounds)]
     return {"kind": "twin", "prog": prog, "values": values, "modes": modes, "hardware": hw, "script": [rng.randrange(2) for _ in range(8)],
             "family": "identical-rounds"}
 
@@ -143,5 +149,5 @@ def run_case(ctx, case):
         return ctx.case(case, False)
     from vf.ref import hostlang as hl
     segs = hl.segments(prog)
-    nontrivial = any(m != "direct" and _has_template(seg) for m, seg in zip(case["modes"], segs))
+    nontrivial = any(m.replace("+cb", "") != "direct" and _has_template(seg) for m, seg in zip(case["modes"], segs))
     ctx.case(case, nontrivial)
